@@ -236,7 +236,7 @@ def check_property(ctx, db):
             got = None
             try:
                 for st in sarm:
-                    mi.run(st, {})
+                    mi.run(st, {'value': M.Obj(bytes=M.Ptr(arr, 0), count=len(arr))})      # (the value object, should the classifier live in a helper)
             except M.Stop as sp:
                 got = sp.v
             except (M._Break, M.Return):
@@ -272,7 +272,7 @@ def check_repetition(ctx, db):
     ctx.check(set(rarms) == set(range(1, 12)), 'R-EXHAUST', 'oasis_read_repetition/types', rsw.loc(), 'type codes 1..11 are decoded (0 = reuse the modal repetition returns early)', 'decoded type codes: %s' % sorted(rarms))
     t0 = [i for i in r.body.c if i is not None and i.k == 'IfStmt' and norm(i.child('cond').text()) == '(type == 0)']
     clr = [s for s in r.body.c if s is not None and s.k == 'CXXMemberCallExpr' and (s.callee or '').endswith('::clear')]
-    ok = len(t0) == 1 and len(clr) == 1 and t0[0].id < clr[0].id and any(x.k == 'ReturnStmt' for x in t0[0].child('then').walk())
+    ok = len(t0) == 1 and len(clr) == 1 and t0[0].pos < clr[0].pos and any(x.k == 'ReturnStmt' for x in t0[0].child('then').walk())
     ctx.check(ok, 'R-DEP', 'oasis_read_repetition/type0-keeps-modal', r.loc(), 'type 0 returns before the modal repetition is cleared')
     # writer arms
     names = {}
@@ -546,7 +546,7 @@ def nonneg_proof(fld, env, ops, fn):
         srt = [c for c in fn.walk() if c.k == 'CallExpr' and (c.callee or '').endswith('sort')]
         node = fld['node']
         arm = next((x for x in node.ancestors() if x.k == 'IfStmt' and norm(x.child('cond').text()).endswith('.count > 0)')), None)
-        if arm is not None and any(s_ in list(arm.walk()) and s_.id < node.id for s_ in srt):
+        if arm is not None and any(s_ in list(arm.walk()) and s_.pos < node.pos for s_ in srt):
             c1, c0 = re.fullmatch(r'\*(\w+)\+\+ - \*(\w+)\+\+', e_flat).groups()
             decl = {v.n: norm(v.child('init').text()) for v in arm.walk() if v.k == 'VarDecl' and v.child('init') is not None}
             if decl.get(c1) == '(%s + 1)' % c0:
@@ -798,16 +798,16 @@ def check_cblock(ctx, db):
     ctx.check(ok, 'R-PAIR', 'write_oas/cblock-cursor', w.loc(), 'the buffer cursor is NULL initially, armed once per cell and disarmed once per cell under the same `compression_level > 0` test', 'cursor stores: %s' % [(v[0], v[1]) for v in vals])
     if ok:
         cb = next((c for c in w.walk() if c.k == 'CallExpr' and c.callee == 'gdstk::oasis_putc' and 'OasisRecord::CBLOCK' in norm(c.args[0].text())), None)
-        okb = cb is not None and stop[0][2].id < cb.id and start[0][2].id < stop[0][2].id
+        okb = cb is not None and stop[0][2].pos < cb.pos and start[0][2].pos < stop[0][2].pos
         # same loop body
         lp = lambda x: next((a for a in x.ancestors() if a.k == 'ForStmt'), None)
         okb = okb and lp(start[0][2]) is lp(stop[0][2]) and lp(cb) is lp(stop[0][2])
         sz = next((v for v in w.walk() if v.k == 'VarDecl' and v.n == 'uncompressed_size'), None)
-        okb = okb and sz is not None and norm(sz.child('init').text()) == '(out.cursor - out.data)' and sz.id < stop[0][2].id
+        okb = okb and sz is not None and norm(sz.child('init').text()) == '(out.cursor - out.data)' and sz.pos < stop[0][2].pos
         ctx.check(okb, 'R-DEP', 'write_oas/cblock-header-unbuffered', cb.loc() if cb is not None else w.loc(), 'the buffered size is taken, then the cursor is cleared, then the CBLOCK header and the compressed bytes go to the file (and into the signature)')
         # ftell users need an unbuffered stream: cell offsets are taken before the cursor is armed
         co = next((c for c in w.walk() if c.k == 'CallExpr' and c.callee == 'ftell' and lp(c) is lp(start[0][2])), None)
-        ctx.check(co is not None and co.id < start[0][2].id, 'R-DEP', 'write_oas/cell-offset-unbuffered', w.loc(), 'the cell offset and the CELL record are produced while the stream is unbuffered')
+        ctx.check(co is not None and co.pos < start[0][2].pos, 'R-DEP', 'write_oas/cell-offset-unbuffered', w.loc(), 'the cell offset and the CELL record are produced while the stream is unbuffered')
     # CBLOCK header fields and deflate parameters vs the reader
     cb = next((c for c in w.walk() if c.k == 'CallExpr' and c.callee == 'gdstk::oasis_putc' and 'OasisRecord::CBLOCK' in norm(c.args[0].text())), None)
     blk = cb.parent
@@ -906,7 +906,7 @@ def check_detection(ctx, db):
             c0, p0 = 1, 0
     if c0 is None or p0 is None:
         raise AnalysisBroken('is_circle: predecessor/current pointer idiom not recognised')
-    pre = [i_ for i_ in f.body.c if i_ is not None and i_.k == 'IfStmt' and i_.id < loop.id and ('(*%s) - center' % cur) in norm(i_.child('cond').text()) and tables._always_leaves(i_.child('then'))]
+    pre = [i_ for i_ in f.body.c if i_ is not None and i_.k == 'IfStmt' and i_.pos < loop.pos and ('(*%s) - center' % cur) in norm(i_.child('cond').text()) and tables._always_leaves(i_.child('then'))]
     edges_ok = T0 == 0 and (c0 - p0) == 1
     verts_ok = (c0 == 0 and T0 == 0) or (c0 == 1 and T0 == -1 and len(pre) == 1)
     ctx.check(edges_ok and verts_ok and rm.group(1) == cur, 'R-LOOP', 'is_circle/closed-boundary', loop.loc(), 'index model: %d+count trips, edges (k%+d, k%+d) mod count: every vertex is tested against the radius and every edge of the closed boundary, including last->first, against the neighbour distance' % (T0, p0, c0),
